@@ -53,15 +53,23 @@ WHAT = {
 
 
 def order_from_gen():
-    """the order of SaveFinished and the hand-over to the consumer as go2lean extracted it from executeAndFinishDKG"""
+    """the order of SaveFinished and the hand-over to the consumer as go2lean extracts it from executeAndFinishDKG of the
+    tree under test (fresh run of the extractor: lean/Gen may be stale when the translator refused the source)"""
+    import subprocess, tempfile, shutil
+    tmp = tempfile.mkdtemp(prefix="c13gen", dir=core.scratch())
     try:
-        txt = open(os.path.join(core.LEAN, "Gen", "Persist.lean")).read()
+        p = subprocess.run([os.path.join(core.BUILD, "go2lean"), core.REPO, tmp], stdout=subprocess.PIPE, stderr=subprocess.PIPE, text=True)
+        if p.returncode != 0:
+            return "SaveFinished,send", "go2lean refused the source: " + p.stderr.strip()[:300]
+        txt = open(os.path.join(tmp, "Gen", "Persist.lean")).read()
         m = re.search(r"def executeAndFinishDKGPersist : List String := \[(.*?)\]", txt)
         calls = re.findall(r'"([^"]*)"', m.group(1))
         a, b = calls.index("store.SaveFinished"), calls.index("completedDKGs.send")
-        return "SaveFinished,send" if a < b else "send,SaveFinished"
-    except Exception:
-        return "SaveFinished,send"
+        return ("SaveFinished,send" if a < b else "send,SaveFinished"), "extracted"
+    except Exception as e:
+        return "SaveFinished,send", f"not extracted ({e})"
+    finally:
+        shutil.rmtree(tmp, ignore_errors=True)
 
 
 # ------------------------------------------------------------------------------------------------
@@ -131,16 +139,34 @@ def consistent(rec, member):
     return g == "absent" and s == "absent"
 
 
+def startup_class(load):
+    load = load or "?"
+    if load.startswith("ok:"):
+        return "started"
+    if load == "fresh":
+        return "fresh-install"
+    if load == "panic":
+        return "panicked"
+    return "refused"
+
+
 def symptom(rec):
+    """what is wrong with a recovered image, and what the start-up path did with it"""
+    return symptom_files(rec) + ":" + startup_class(rec.get("load"))
+
+
+def symptom_files(rec):
     fin, g, s, load = rec.get("fin"), rec.get("g"), rec.get("s"), rec.get("load")
     if epoch_num(fin) is None:
         return "dkg-db-not-whole"
-    if load == "panic":
-        return "startup-panic"
+    if g == "panic":
+        return "group-decoder-panic"
     if g in ("err", "nil"):
         return "group-unreadable"
     if g == "partial":
         return "truncated-group-accepted"
+    if s == "panic":
+        return "share-decoder-panic"
     if s == "err":
         return "share-unreadable"
     if s == "partial":
@@ -154,7 +180,7 @@ def symptom(rec):
         if fe < ge:
             return "key-files-ahead-of-db"
         if "ok:" not in (load or "") and load != "fresh":
-            return "start-up-fails:" + str(load)
+            return "start-up-fails[" + str(load) + "]"
         return "key-files-of-an-epoch-without-this-node"
     return "group-ahead-of-share" if ge > se else "share-ahead-of-group"
 
@@ -408,10 +434,10 @@ def evaluate(ops, outs, order, res, stats, ctx, scenario_id):
 
 
 def minimise(ops):
-    """keep the last init and, after it, only what creates state (DKG ops) plus the failing op"""
+    """keep the last init and, after it, only what creates state (DKG and beacon ops) plus the failing op"""
     start = max(i for i, o in enumerate(ops) if o.startswith("init"))
     ops = ops[start:]
-    keep = [ops[0]] + [o for o in ops[1:-1] if o.startswith("dkg")] + ([ops[-1]] if len(ops) > 1 else [])
+    keep = [ops[0]] + [o for o in ops[1:-1] if o.startswith("dkg") or o.startswith("beacon")] + ([ops[-1]] if len(ops) > 1 else [])
     return keep
 
 
@@ -473,9 +499,16 @@ def run_scenarios(scens, mode, ctx, workers=8):
 
 
 def explore(ctx, res):
-    rng = ctx["rng"]
-    tier = "thorough" if ctx["deep"] else ctx["tier"]
-    order = order_from_gen()
+    """when a build/proof step broke (ctx["deep"]) the quick budget runs first; only if it finds no concrete failing
+    input the thorough budget (every byte offset, more histories) is spent"""
+    explore_tier(ctx, res, ctx["tier"])
+    if ctx["deep"] and ctx["tier"] != "thorough" and not any(f for _, f in res.violations):
+        explore_tier(ctx, res, "thorough")
+
+
+def explore_tier(ctx, res, tier):
+    rng = ctx["rng"].fork(tier)
+    order, order_src = order_from_gen()
     seed = ctx["seed"]
     scens, names = [], []
     for f in sorted(glob.glob(os.path.join(core.VERIF, "corpus", ID, "*.json"))):
@@ -533,7 +566,7 @@ def explore(ctx, res):
                        "non-trivial = distinct (DKG kind, membership, previous completed epoch, step, torn?, recovered record)")
     res.cov["distribution"] = {"ops_by_kind": stats["ops"], "images_by_step": stats["cuts"], "torn_prefix_classes": stats["torn"],
                                "startup_outcomes": stats["loads"], "observed_step_traces": stats["traces"], "restarts": stats["restarts"],
-                               "handover_order_from_source": order, "scenarios": len(scens)}
+                               "handover_order_from_source": order, "handover_order_source": order_src, "scenarios": len(scens)}
     res.cov["samples"] = []
     for name, ops, (impl, model) in list(zip(names, scens, results))[:3]:
         for op, out in zip(ops, impl):
